@@ -455,7 +455,10 @@ impl WriteNode {
     /// between the published version and the new one, so on every edit
     /// both diff entries of the RRset are replaced: records of the
     /// published RRset that the new RRset lacks are removals, records of
-    /// the new RRset that the published RRset lacks are additions.
+    /// the new RRset that the published RRset lacks are additions. A record
+    /// is its data and its TTL: if the TTL of the RRset changes, all records
+    /// of the published RRset are removals and all records of the new RRset
+    /// are additions.
     ///
     /// Pass `None` as the new RRset if the RRset is being removed.
     fn record_rrset_change(
@@ -472,13 +475,20 @@ impl WriteNode {
         let old_rrs =
             old_rrset.as_ref().map(|r| r.data()).unwrap_or_default();
         let new_rrs = new_rrset.map(|r| r.data()).unwrap_or_default();
+        let ttl_changed = match (&old_rrset, new_rrset) {
+            (Some(o), Some(n)) => o.ttl() != n.ttl(),
+            _ => false,
+        };
 
         let mut diff = diff.lock().unwrap();
 
         diff.clear_removed(owner, rtype);
         if let Some(old_rrset) = &old_rrset {
             let mut removed_rrs = Rrset::new(rtype, old_rrset.ttl());
-            for rr in old_rrs.iter().filter(|rr| !new_rrs.contains(rr)) {
+            for rr in old_rrs
+                .iter()
+                .filter(|rr| ttl_changed || !new_rrs.contains(rr))
+            {
                 removed_rrs.push_data(rr.clone());
             }
             if !removed_rrs.is_empty() {
@@ -496,7 +506,10 @@ impl WriteNode {
         diff.clear_added(owner, rtype);
         if let Some(new_rrset) = new_rrset {
             let mut added_rrs = Rrset::new(rtype, new_rrset.ttl());
-            for rr in new_rrs.iter().filter(|rr| !old_rrs.contains(rr)) {
+            for rr in new_rrs
+                .iter()
+                .filter(|rr| ttl_changed || !old_rrs.contains(rr))
+            {
                 added_rrs.push_data(rr.clone());
             }
             if !added_rrs.is_empty() {
